@@ -68,7 +68,10 @@ def main():
                 elif not own:
                     print(f"seed {name}: not reported by {pid}; reported by {sorted(fired)}")
             else:
-                if fired or und:
+                if pid == "PATCH-DOES-NOT-APPLY":
+                    print(f"BENIGN {name}: patch does not apply to the current tree (its silence is not being measured)")
+                    bad += 1
+                elif fired or und:
                     print(f"BENIGN {name}: FALSE ALARM {fired} {und}")
                     bad += 1
     print(f"{len(jobs)} patches replayed, {bad} problem(s)")
